@@ -1,6 +1,16 @@
--- root of the `Hpl` library: model, spec and property theorems
+-- root of the `Hpl` library: generated tables, model, spec and property theorems
 import Hpl.Model.TableTypes
 import Hpl.Generated.Tables
 import Hpl.Model.DataType
+import Hpl.Model.Ast
+import Hpl.Model.Printer
+import Hpl.Model.Query
+import Hpl.Model.Build
+import Hpl.Model.BuildProp
+import Hpl.Spec.Typing
 import Hpl.Wire.Sexp
+import Hpl.Wire.Codec
+import Hpl.Lemmas.Except
 import Hpl.Props.C20
+import Hpl.Props.C15
+import Hpl.Props.C03
